@@ -58,7 +58,7 @@ class C13(CheckBase):
         self.exe = engines.engine("san", "mgrsim")
 
     def n_plans(self, tier):
-        return 6000 if tier == "quick" else 120000
+        return 20000 if tier == "quick" else 400000
 
     def time_budget(self, tier):
         return 100 if tier == "quick" else 1500
